@@ -101,7 +101,7 @@ def isect_case(draw, tier="quick"):
     sig = draw(st.sampled_from([s for s in SIGS[d] if tuple(s) in PTS] if ltype in ("secant", "tangent") else SIGS[d]))
     return {"d": d, "sig": sig, "n": draw(Z.params(9)), "ltype": ltype, "i": draw(st.integers(0, 5)), "j": draw(st.integers(0, 5)),
             "A": draw(C.hpoint(d, 6)), "B": draw(C.hpoint(d, 6)), "s": draw(C.scale()), "coll": draw(st.sampled_from([None, None, "lines", "quadrics"])),
-            "cls": draw(st.sampled_from(["Quadric", "Conic"]))}
+            "cls": draw(st.sampled_from(["Quadric", "Conic"])), "other": draw(st.sampled_from(["same", "axis", "axis-first", "generic", "generic-first"]))}
 
 
 def build_line_points(c, S, adjN):
@@ -157,12 +157,35 @@ def run_isect(c):
     site = f"intersect:d{d}:{c['ltype']}:{'double' if disc == 0 else ('real' if disc > 0 else 'complex')}"
     ck = Checker()
     coll = c["coll"]
+    positions = [(A, B, exp, disc)]
     if coll == "lines":
-        L2 = LineCollection(np.stack([L.array, L.array * -3.0]))
+        # a second, different line in the collection: parallel to a coordinate axis (such lines have vanishing rows in their
+        # Pluecker matrix) or generic; in either order
+        other = c.get("other", "same")
+        A2, B2 = A, B
+        if other in ("axis", "axis-first"):
+            A2 = fr(c["A"]) if c["A"][-1] != 0 else [Fraction(0)] * d + [Fraction(1)]
+            k = c["j"] % d
+            B2 = [x + (A2[-1] if i == k else 0) for i, x in enumerate(A2)]
+        elif other in ("generic", "generic-first"):
+            A2, B2 = fr(c["B"]), [x + y for x, y in zip(fr(c["A"]), fr(c["B"]))]
+            if X.rank([A2, B2]) < 2:
+                A2, B2 = A, B
+        exp2, disc2 = expected_points(S, A2, B2)
+        if exp2 is None or max(abs(x) for x in A2 + B2) > 400:
+            A2, B2, exp2, disc2 = A, B, exp, disc
+        Lo = line_obj(A2, B2, n) if (A2, B2) != (A, B) else Line(L.array * -3.0)
+        if other.endswith("-first"):
+            L2 = LineCollection(np.stack([Lo.array, L.array]))
+            positions = [(A2, B2, exp2, disc2), (A, B, exp, disc)]
+        else:
+            L2 = LineCollection(np.stack([L.array, Lo.array]))
+            positions = [(A, B, exp, disc), (A2, B2, exp2, disc2)]
         Q = cls(Sa)
         r, f = call(site + ":linecoll", Q.intersect, L2)
     elif coll == "quadrics":
         Q = QuadricCollection(np.stack([Sa, Sa * 2.0]))
+        positions = positions * 2
         r, f = call(site + ":quadriccoll", Q.intersect, L)
     else:
         Q = cls(Sa)
@@ -171,8 +194,7 @@ def run_isect(c):
         return [f]
     if not ck.check(isinstance(r, list) and 1 <= len(r) <= 2, site + ":result-count", len(r) if isinstance(r, list) else type(r)):
         return ck.result()
-    npos = 2 if coll else 1
-    for k in range(npos):
+    for k, (Ak, Bk, expk, disck) in enumerate(positions):
         got = []
         for p in r:
             a = np.asarray(p.array)
@@ -186,14 +208,14 @@ def run_isect(c):
             gn = C.pnorm(g)
             ck.check(abs(gn @ Sn @ gn) < 1e-6, site + ":point-on-quadric", (g.tolist(),))
             # on the line: rank of [A, B, g] is 2
-            M = np.stack([C.pnorm(np_f(A)), C.pnorm(np_f(B)), gn])
+            M = np.stack([C.pnorm(np_f(Ak)), C.pnorm(np_f(Bk)), gn])
             sv = np.linalg.svd(M, compute_uv=False)
-            ck.check(sv[-1] < 1e-6 if n == 3 else sv[2] < 1e-6, site + ":point-on-line", (g.tolist(),))
-        if disc == 0:
-            ok = all(C.peq_all(g, exp[0], 1, 1e-5) for g in got)
-            ck.check(ok, site + ":tangent-returns-contact-point", ([g.tolist() for g in got], exp[0].tolist()))
+            ck.check(sv[-1] < 1e-6 if n == 3 else sv[2] < 1e-6, site + ":point-on-line", (g.tolist(), k))
+        if disck == 0:
+            ok = all(C.peq_all(g, expk[0], 1, 1e-5) for g in got)
+            ck.check(ok, site + ":tangent-returns-contact-point", ([g.tolist() for g in got], expk[0].tolist()))
         else:
-            ck.check(len(got) == 2 and C.multiset_peq(got, exp, 1e-6), site + ":common-points", ([g.tolist() for g in got], [e.tolist() for e in exp]))
+            ck.check(len(got) == 2 and C.multiset_peq(got, expk, 1e-6), site + ":common-points", ([g.tolist() for g in got], [e.tolist() for e in expk], k))
     return ck.result()
 
 
@@ -517,9 +539,9 @@ def run_deg(c):
 
 
 LAWS = [
-    Law("intersect_line", lambda tier: isect_case(tier), run_isect, isect_nontrivial, lambda c: [f"d{c['d']}", c["ltype"], "sig" + "".join("+" if x > 0 else "-" for x in c["sig"])] + ([c["coll"]] if c["coll"] else []),
+    Law("intersect_line", lambda tier: isect_case(tier), run_isect, isect_nontrivial, lambda c: [f"d{c['d']}", c["ltype"], "sig" + "".join("+" if x > 0 else "-" for x in c["sig"])] + ([c["coll"]] if c["coll"] else []) + (["collection-with-axis-parallel-line"] if c["coll"] == "lines" and c.get("other", "").startswith("axis") else []),
         {"quick": 2500, "thorough": 50000}, "quadric.intersect(line) = roots of the exact restriction; every point on both; secant/tangent/complex/origin/infinity", shard=300,
-        mandatory=("tangent", "secant", "lines", "quadrics")),
+        mandatory=("tangent", "secant", "lines", "quadrics", "collection-with-axis-parallel-line")),
     Law("tangent_polar_dual", lambda tier: tpd_case(tier), run_tpd, lambda c: True, lambda c: [c["what"]] + ([c["cls"]] if c["what"] in ("dual_class", "is_tangent_class") else []),
         {"quick": 2500, "thorough": 40000}, "tangent(at), tangents from outside, pole/polar reciprocity, dual involution for every class, is_tangent", shard=300),
     Law("special_quadrics", lambda tier: deg_case(tier), run_deg, lambda c: True, lambda c: [c["what"]], {"quick": 1200, "thorough": 20000},
